@@ -533,7 +533,7 @@ def final_settings(spec_obj, calls):
 PROP = 'C18'
 PROOF_MODULES = ['Ladybug.Props.C18']
 GREP_MODULES = ['Ladybug.Model.Lazy', 'Ladybug.Model.WindProfile', 'Ladybug.Gen.LazyDeps',
-                'Ladybug.Gen.WindTables', 'Ladybug.Proofs.C18Lemmas', 'Ladybug.Proofs.C18Wind',
+                'Ladybug.Gen.WindTables', 'Ladybug.Proofs.C18Lemmas', 'Ladybug.Proofs.C18Table', 'Ladybug.Proofs.C18Wind',
                 'Ladybug.Drv.C18', 'Ladybug.DrvCore']
 RULE = ('correspondence: (wind) random constructor arguments + 0-12 setter calls (10 % rejected ones) + '
         'calculate_wind at boundary-biased heights, model vs real WindProfile (1e-12 relative); (tm) random '
@@ -552,8 +552,13 @@ TRUSTED_BASE = [
     'calculate_wind/__init__ are compared as ast with the modelled text',
     'semantic assumption of theorem C18_frame_of_table: a defining expression depends only on the attributes it '
     'reads (no hidden global state); file contents of the .sql/.epw assets do not change during a run',
-    'the link "table passes wellFormed => the table machine answers ok on every history" is exercised by the '
-    'correspondence (tm) on random histories, not proved',
+    'the table machine is PROVED to answer ok on every history of a well-formed table (C18_table_sound); what is '
+    'trusted is that the table machine with the regenerated table describes the real class: exercised by the '
+    'correspondence (tm) on random histories and by the run-time tracing of attribute accesses',
+    'translator conventions: only `self._x is None` / `not self._x` tests count as cache guards; a value-dependent '
+    'rewrite of a slot by its own getter is a `refine` (SQLiteResult.reporting_frequency); an attribute assigned '
+    'unconditionally before every direct read is a temporary, not a cache (WindRose._poly_array); members inherited '
+    'by HourlyContinuousCollection are taken from the two base classes named in lazy_deps.BASES',
     'Float pow/log of the driver vs CPython (same libm; compared within 1e-12 relative)',
 ]
 ASSUMPTIONS = ['heights and speeds passed to calculate_wind are >= 0',
@@ -566,12 +571,15 @@ TECHNIQUE = ('Lean 4 proof (induction over read/setter histories of a generic me
              'code by translators, run-time tracing and differential correspondence')
 LEVEL_TEXT = ('Machine-checked Lean 4 theorems: for a generic memo object all read histories are order/repetition '
               'independent and, when every setter clears the slots that read its field, every read after any '
-              'read/setter history equals that of a fresh object with the final settings; the dependency tables of '
-              'ViewSphere, SQLiteResult, AnalysisPeriod, HourlyPlot, WindRose, MonthlyChart, PsychrometricChart and '
-              'Compass are regenerated from the source on every run and proved (decide) to satisfy the hypotheses; '
+              'read/setter history equals that of a fresh object with the final settings; the table machine (the '
+              'executable semantics compared with the real objects) is proved to answer every read of every history '
+              'with the getter\'s own expression on the current settings for every well-formed table '
+              '(C18_table_sound), and the dependency tables of ViewSphere, SQLiteResult, AnalysisPeriod, HourlyPlot, '
+              'WindRose, MonthlyChart, PsychrometricChart and Compass (HourlyContinuousCollection: read-only part) are '
+              'regenerated from the source on every run and proved (decide) well-formed; '
               'WindProfile: for all setter sequences the object equals a fresh one with the final settings, and over '
               'the reals it returns the meteorological speed at the meteorological height and never decreases with '
-              'height. EPW lazy loading and HourlyContinuousCollection.datetimes are covered by the oracle only.')
+              'height. EPW lazy loading (flag-guarded import through a helper) is covered by the oracle only.')
 LEVEL_NOTE = ('Trusted: Lean kernel, standard axioms, the two translators (cross-checked by run-time tracing), the '
               'correspondence run, float vs real arithmetic. The log-law identity needs met height > roughness length; '
               'the setters do not enforce it (known finding).')
@@ -736,7 +744,7 @@ def _corr_wind(ctx):
 # correspondence 2: table machine vs real objects; 3: traced accesses inside the static tables
 
 TABLE_CLASSES = ['ViewSphere', 'SQLiteResult', 'AnalysisPeriod', 'HourlyPlot', 'WindRose', 'MonthlyChart',
-                 'PsychrometricChart', 'Compass']
+                 'PsychrometricChart', 'Compass', 'HourlyContinuousCollection']
 
 
 def _setter_choices(S, tab_setter):
